@@ -36,6 +36,11 @@ var solvers = []solverDef{
 	{"z3-4.8.12", func(f string, t time.Duration) []string {
 		return []string{"z3", fmt.Sprintf("-T:%d", int(t.Seconds())+1), f}
 	}},
+	// same solver with relevancy filtering off: every ground term may trigger quantifier instantiation
+	// (default relevancy misses instantiations for some goals; it only affects completeness)
+	{"z3-5.1.0(relevancy=0)", func(f string, t time.Duration) []string {
+		return []string{"z3-new", fmt.Sprintf("-T:%d", int(t.Seconds())+1), "smt.relevancy=0", f}
+	}},
 	{"cvc5-1.0.3", func(f string, t time.Duration) []string {
 		return []string{"cvc5", "--strings-exp", fmt.Sprintf("--tlimit=%d", t.Milliseconds()), f}
 	}},
@@ -365,4 +370,42 @@ func SolveFns(fcs []*FnCtx, extra []*Oblig, dir string, timeout time.Duration, t
 		}
 	}
 	SolveAll(rest, dir, timeout, thorough)
+	// An obligation on which a solver ran out of time (and none answered sat) is tried once more,
+	// alone on the machine's terms (two at a time) and with three times the budget: a timeout under
+	// load is not a verdict. Nothing is loosened: only unsat discharges.
+	var again []*Oblig
+	for _, o := range rest {
+		if o.Cover || o.result == nil || (o.Quick && len(o.ExtraAs) == 0) {
+			continue
+		}
+		if o.result.Status != "timeout" && o.result.Status != "unknown" {
+			continue
+		}
+		timedOut := false
+		for _, s := range o.result.All {
+			if s == "timeout" {
+				timedOut = true
+			}
+		}
+		if timedOut {
+			again = append(again, o)
+		}
+	}
+	if len(again) > 0 && len(again) <= 40 {
+		var wg sync.WaitGroup
+		sem := make(chan struct{}, 2)
+		for _, o := range again {
+			wg.Add(1)
+			go func(o *Oblig) {
+				defer wg.Done()
+				sem <- struct{}{}
+				defer func() { <-sem }()
+				r := Solve(o, dir, 3*timeout, thorough)
+				if r.Status == "unsat" || r.Status == "sat" {
+					o.result = r
+				}
+			}(o)
+		}
+		wg.Wait()
+	}
 }
